@@ -810,6 +810,20 @@ func (g *Gen) genC16(n int) error {
 		var open []string
 		openFilt := map[string]bool{}
 		openEx := map[string]string{}
+		if i%4 == 0 && nd >= 3 {
+			// the caller that makes the cache load the index excludes one document; the next callers, served
+			// from the cache, exclude another single document each (same number of exclusions, other
+			// documents), then two, then none: every one gets its own exclusions applied
+			fn := g.pick([]string{"vecA", "vecB"})
+			for _, ex := range []string{"0", "1", intList([]int{nd - 1}), "0,1", intList([]int{1, nd - 1}), "nil", "0"} {
+				hx1 := g.fresh("h")
+				g.emit("vopen %s %s %s filt=%s ex=%s", hx1, seg, fn, g.pick([]string{"0", "1"}), ex)
+				g.emit("vsearch %s q=%s k=%d", hx1, g.randQuery(2), nd*3)
+				g.emit("vclose %s", hx1)
+			}
+			g.emit("vrefs %s", seg)
+			g.st("c16.samesizeexclusions")
+		}
 		if i%4 == 1 {
 			// an unfiltered caller fills the cache, the first filtering caller (with its own exclusions)
 			// upgrades the entry; its unfiltered and full-selectivity searches still honour the exclusions
